@@ -88,6 +88,14 @@ macro "go_eval" f:ident : tactic => `(tactic| (
   rw [retVal_some]
   simp only [evalOp, bitsOp, norm, pat, Ty.half, Ty.modulus, Int.reduceToNat, Int.reducePow, Int.reduceMod, Int.reduceAdd, Int.reduceSub, Int.reduceNeg]))
 
+theorem composite64_bridge (h l : Int) (hh : isI32 h) (hl : isI32 l) :
+    call noArr GoModel.fn_Composite64 [h, l] = composite64 h l := by
+  unfold isI32 at *
+  go_eval GoModel.fn_Composite64
+  rw [land_low 32 _ 4294967295 (by decide) (by omega)]
+  rw [lor_disjoint 32 _ _ (by omega) (by omega) (by omega) (by omega)]
+  unfold composite64 wrap64; omega
+
 theorem composite32_bridge (h l : Int) (hh : isI16 h) (hl : isI16 l) :
     call noArr GoModel.fn_Composite32 [h, l] = composite32 h l := by
   unfold isI16 at *
